@@ -140,6 +140,7 @@ class Check:
         self.assumptions = []
         self.bounds = {}
         self.violations = []
+        self.unconfirmed = []  # solver counterexamples that no native replay confirmed: never a pass, never a VIOLATION
         self.known_printed = []
         self.solver_s = 0.0
         self.queries = 0
@@ -457,7 +458,11 @@ class Check:
                 pass
         rec['model'] = vals
         if replay is None:
-            raise Inconclusive('obligation %s has a solver counterexample %s but no native replay is defined' % (name, vals))
+            msg = 'obligation %s has a solver counterexample %s but no native replay is defined' % (name, vals)
+            self.unconfirmed.append(msg)
+            rec['replayed'] = False
+            print('UNCONFIRMED property=%s %s' % (self.pid, msg[:600]))
+            return
         blocked = []
         cur = model
         for rnd in range(5):
@@ -483,8 +488,11 @@ class Check:
             res, cur, dt = self.solve(list(pc) + [neg] + excl + blocked)
             if res != 'sat':
                 break
-        raise Inconclusive('obligation %s (%s): solver counterexample %s does not reproduce natively '
-                           '(encoding or summary suspect); last observation %s' % (name, describe, vals, str(observed)[:600]))
+        msg = ('obligation %s (%s): solver counterexample %s does not reproduce natively '
+               '(encoding or summary suspect); last observation %s' % (name, describe, vals, str(observed)[:600]))
+        self.unconfirmed.append(msg)
+        rec['replayed'] = False
+        print('UNCONFIRMED property=%s %s' % (self.pid, msg[:900]))
 
     def implied(self, pc, cond):
         """True if pc => cond, False if pc => not cond, None otherwise"""
@@ -574,6 +582,9 @@ def run_check(pid, body, tier, seed):
         body(chk)
         if chk.violations:
             status, code = 'violation', 1
+        elif chk.unconfirmed:
+            status, code = 'inconclusive: %d unconfirmed solver counterexample(s): %s' % (len(chk.unconfirmed), chk.unconfirmed[0][:300]), 2
+            print('INCONCLUSIVE property=%s %s' % (pid, status[:1500]))
         elif not chk.obligations:
             status, code = 'inconclusive: no obligation was discharged', 2
     except (Inconclusive, Unsupported, MirSyntax) as e:
